@@ -431,9 +431,13 @@ enum Respawn {
 	TryGracefulRestartWithinGrace,
 	TryGracefulRestartBeyondGrace,
 	StopThenStart,
+	/// `set_spawn_hook(A); start(); unset_spawn_hook()` sent back to back, awaited together
+	OneShotHookBurst,
+	/// `set_spawn_hook(A); start()`, then `set_spawn_hook(B); restart(); unset_spawn_hook()`, each group sent back to back
+	HookSwapBurst,
 }
 
-const RESPAWNS: [Respawn; 7] = [
+const RESPAWNS: [Respawn; 9] = [
 	Respawn::Restart,
 	Respawn::TryRestart,
 	Respawn::GracefulRestartWithinGrace,
@@ -441,10 +445,96 @@ const RESPAWNS: [Respawn; 7] = [
 	Respawn::TryGracefulRestartWithinGrace,
 	Respawn::TryGracefulRestartBeyondGrace,
 	Respawn::StopThenStart,
+	Respawn::OneShotHookBurst,
+	Respawn::HookSwapBurst,
 ];
+
+/// Hook changes are controls like any other: one queued before a start applies to that start,
+/// one queued after it does not. The controls are sent back to back and awaited together.
+async fn hook_burst_case(path: Respawn, hook: Hook, casedir: &Path, helper: &Path) -> Result<Vec<(String, String)>, String> {
+	let _ = std::fs::remove_dir_all(casedir);
+	let wd_a = casedir.join(WORKDIR_NAME);
+	let wd_b = casedir.join("w-b");
+	for d in [&wd_a, &wd_b] {
+		std::fs::create_dir_all(d).map_err(|e| format!("mkdir: {e}"))?;
+	}
+	let link = casedir.join("h");
+	std::os::unix::fs::symlink(helper, &link).map_err(|e| format!("symlink: {e}"))?;
+	let spec = Spec::Exec { prog: link.to_str().ok_or("non-utf8 scratch path")?.to_string(), args: vec!["linger".to_string()] };
+	let (job, task) = start_job(Arc::new(build(&spec, OPTS4[0])));
+	let set = |wd: PathBuf, val: &'static str| match hook {
+		Hook::Async => job.set_spawn_async_hook(move |c, _| {
+			c.command_mut().current_dir(&wd).env(PROBE_VAR, val);
+			Box::new(async {})
+		}),
+		_ => job.set_spawn_hook(move |c, _| {
+			c.command_mut().current_dir(&wd).env(PROBE_VAR, val);
+		}),
+	};
+	const VAL_B: &str = "second hook";
+	let lines = || {
+		std::fs::read_to_string(casedir.join("dumps.jsonl"))
+			.map(|s| s.split_inclusive('\n').filter(|l| l.ends_with('\n')).map(|l| l.trim_end().to_string()).collect::<Vec<_>>())
+			.unwrap_or_default()
+	};
+	// each group is sent back to back and awaited together; then the process it started must report
+	let ngroups = if path == Respawn::OneShotHookBurst { 1 } else { 2 };
+	let mut expect: Vec<(PathBuf, &str)> = vec![];
+	let mut failed = None;
+	'groups: for gi in 0..ngroups {
+		let (tickets, exp) = match (path, gi) {
+			(Respawn::OneShotHookBurst, _) => (vec![set(wd_a.clone(), PROBE_VAL), job.start(), job.unset_spawn_hook()], (wd_a.clone(), PROBE_VAL)),
+			(_, 0) => (vec![set(wd_a.clone(), PROBE_VAL), job.start()], (wd_a.clone(), PROBE_VAL)),
+			_ => (vec![set(wd_b.clone(), VAL_B), job.restart(), job.unset_spawn_hook()], (wd_b.clone(), VAL_B)),
+		};
+		expect.push(exp);
+		for t in tickets {
+			if tokio::time::timeout(Duration::from_secs(30), t).await.is_err() {
+				failed = Some(format!("a ticket of the {path:?} case did not resolve within 30 s"));
+				break 'groups;
+			}
+		}
+		let t0 = std::time::Instant::now();
+		while lines().len() < expect.len() {
+			if t0.elapsed() > Duration::from_secs(30) {
+				failed = Some(format!("process #{} of the {path:?} case did not report within 30 s", expect.len()));
+				break 'groups;
+			}
+			tokio::time::sleep(Duration::from_millis(10)).await;
+		}
+	}
+	job.delete_now().await;
+	let _ = tokio::time::timeout(Duration::from_secs(10), task).await;
+	if let Some(f) = failed {
+		return Err(f);
+	}
+	let h = if hook == Hook::Async { "hook-async" } else { "hook-sync" };
+	let mut v = vec![];
+	for (i, (l, (wd, val))) in lines().iter().zip(expect.iter()).enumerate() {
+		let d: Value = serde_json::from_str(l).map_err(|e| format!("unreadable helper report {l:?}: {e}"))?;
+		let cwd = bytes_of(&d["cwd"]).unwrap_or_default();
+		let want_cwd = std::fs::canonicalize(wd).unwrap_or(wd.clone());
+		let which = if i == 0 { "first" } else { "replacement" };
+		if cwd != want_cwd.as_os_str().as_bytes() {
+			v.push((format!("C18/respawn/{path:?}/{h}/cwd/{which}"), format!("the hook in force when this start was sent set cwd {:?}, the {which} process ran in {:?}", want_cwd, String::from_utf8_lossy(&cwd))));
+		}
+		let probe = bytes_of(&d["probe"]);
+		if probe.as_deref() != Some(val.as_bytes()) {
+			v.push((
+				format!("C18/respawn/{path:?}/{h}/env/{which}"),
+				format!("the hook in force when this start was sent set {PROBE_VAR}={val:?}, the {which} process saw {:?}", probe.map(|p| String::from_utf8_lossy(&p).into_owned())),
+			));
+		}
+	}
+	let _ = std::fs::remove_dir_all(casedir);
+	Ok(v)
+}
 
 async fn respawn_case(path: Respawn, hook: Hook, casedir: &Path, helper: &Path) -> Result<Vec<(String, String)>, String> {
 	use watchexec_supervisor::Signal;
+	if matches!(path, Respawn::OneShotHookBurst | Respawn::HookSwapBurst) {
+		return if hook == Hook::None { Ok(vec![]) } else { hook_burst_case(path, hook, casedir, helper).await };
+	}
 	let _ = std::fs::remove_dir_all(casedir);
 	let wd = casedir.join(WORKDIR_NAME);
 	std::fs::create_dir_all(&wd).map_err(|e| format!("mkdir: {e}"))?;
@@ -507,6 +597,7 @@ async fn respawn_case(path: Respawn, hook: Hook, casedir: &Path, helper: &Path) 
 			job.stop().await;
 			job.start().await;
 		}
+		Respawn::OneShotHookBurst | Respawn::HookSwapBurst => unreachable!(),
 	}
 	let second = wait_lines(2).await;
 	job.delete_now().await;
